@@ -411,6 +411,8 @@ def check_hkdf_small(ck_ob, mod, label, thorough=False):
                 if why is None:
                     for k in range(L):
                         got = outs.get((OUTP, k))
+                        if got is not None and any(b_ is gf2.TOP for b_ in got):
+                            raise Broken("tinyjambu_hkdf_expand: an output byte is not representable in the term domain: not decided by the small-length rule")
                         if got is None or tuple(got) != tuple(want_out[k]):
                             why = "output byte %d is %s, expected %s" % (k, gf2.describe(got[0]) if got else "not written", gf2.describe(want_out[k][0]) if want_out[k][0] is not gf2.TOP else "?")
                             break
